@@ -711,8 +711,11 @@ void execDPlacer(const Plan &plan, const ExecOptions &opt, ExecResult &res) {
     long long v = pl.value(), h = refHpwl(s);
     if (v > prevValue)
       cx.verdict("C05", "value-increase", after + ": DetailedPlacer::value() rose " + std::to_string(prevValue) + " -> " + std::to_string(v), i);
-    if (h > prevHpwl)
-      cx.verdict("C05", orientChanged ? "hpwl-increase-with-orientation-change" : "hpwl-increase", after + ": HPWL rose " + std::to_string(prevHpwl) + " -> " + std::to_string(h) + (orientChanged ? " (a cell changed orientation since legalization)" : ""), i);
+    if (h > prevHpwl) {
+      // the incremental model keeps the pin offsets of the legalized orientation
+      bool onlyOffsets = orientChanged && v <= prevValue;
+      cx.verdict("C05", onlyOffsets ? "hpwl-increase-with-orientation-change" : "hpwl-increase", after + ": HPWL rose " + std::to_string(prevHpwl) + " -> " + std::to_string(h) + (onlyOffsets ? " (a polarised cell changed row and orientation; the placer's own value, with frozen pin offsets, went " + std::to_string(prevValue) + " -> " + std::to_string(v) + ")" : ""), i);
+    }
     if (!orientChanged && v != h)
       cx.verdict("C09", "placer-value-differs-from-hpwl", after + ": DetailedPlacer::value()=" + std::to_string(v) + " but the HPWL of the exported circuit is " + std::to_string(h) + " (no cell changed orientation)", i);
     if (h < prevHpwl) cx.stat("probe_pass_improved_hpwl");
